@@ -29,6 +29,19 @@ Theorem C13_ping_per_tick : forall I T ds o s, 0 < I -> Forall (fun d => d <= I)
   firstn (S (length ds)) (ko_starts (keepalive I T (answered ds ++ o :: s))) = tick_times I 1 (S (length ds)).
 Proof. exact ping_per_tick. Qed.
 
+(* the period does not depend on the round-trip time: while each response arrives within one
+   interval (and hence within the timeout), ping j is sent at j*I whatever the response delays,
+   so any two pings are an exact multiple of I apart — the ticker is anchored, not re-armed at
+   the arrival of the response *)
+Theorem C13_ping_period_independent_of_delay : forall I T ds, 0 < I -> Forall (fun d => d <= I) ds ->
+  (forall j, (j < length ds)%nat ->
+     nth_error (ko_starts (keepalive I T (answered ds))) j = Some (N.of_nat (S j) * I)) /\
+  (forall j k tj tk, (j <= k)%nat ->
+     nth_error (ko_starts (keepalive I T (answered ds))) j = Some tj ->
+     nth_error (ko_starts (keepalive I T (answered ds))) k = Some tk ->
+     tk - tj = N.of_nat (k - j) * I).
+Proof. exact ping_period_independent_of_delay. Qed.
+
 (* ... and in every run, whatever the pings do and whenever the context ends: ping number j is
    never sent before j*I, and each ping follows the return of the previous one by at most I *)
 Theorem C13_ping_spacing : forall I T s, 0 < I ->
@@ -166,6 +179,24 @@ Theorem C13_reconnect_interval_then_timeout : forall o ds, 0 < ro_ping_interval 
      ko_result out = KA_returned EPingTimeout /\ pings out = S (length pre)).
 Proof. exact reconnect_interval_then_timeout. Qed.
 
+(* "interval/timeout settings": the settings in force follow the documented rule — PingInterval
+   defaults to the CONNECT keep-alive, Timeout defaults to PingInterval (0 = option not given) *)
+Theorem C13_option_defaults : forall p t ka,
+  ro_ping_interval (rc_effective (mk_ro p t) ka) = (if p =? 0 then ka else p) /\
+  ro_timeout (rc_effective (mk_ro p t) ka) = (if t =? 0 then (if p =? 0 then ka else p) else t) /\
+  (0 < p -> t = 0 -> rc_effective (mk_ro p t) ka = mk_ro p p).
+Proof. exact rc_effective_rule. Qed.
+
+(* so with only a ping interval p configured (keep-alive absent or much longer) a peer answering
+   within p is kept for any number of pings and a silent one is reported with timeout p: at 2p *)
+Theorem C13_timeout_defaults_to_interval : forall p ka ds, 0 < p ->
+  let o := rc_effective (mk_ro p 0) ka in
+  (Forall (fun d => d < p) ds -> forall out, rc_keepalive_peer o (map Some ds) = Some out ->
+     ko_result out = KA_running /\ pings out = length ds) /\
+  (forall out, rc_keepalive_peer o [None] = Some out ->
+     ko_result out = KA_returned EPingTimeout /\ ko_end out = p + p).
+Proof. exact reconnect_timeout_defaults_to_interval. Qed.
+
 (* time.NewTicker's panic on a non-positive interval is unreachable from the reconnecting client *)
 Theorem C13_no_panic_from_reconnect : forall I T s o, rc_keepalive I T s = Some o -> ko_result o <> KA_panic.
 Proof. exact rc_keepalive_no_panic. Qed.
@@ -198,3 +229,6 @@ Print Assumptions C13_caller_cancel_after_connect_irrelevant.
 Print Assumptions C13_stale_pingresp_inert.
 Print Assumptions C13_zero_delay_pingresp_answers.
 Print Assumptions C13_reconnect_interval_then_timeout.
+Print Assumptions C13_ping_period_independent_of_delay.
+Print Assumptions C13_option_defaults.
+Print Assumptions C13_timeout_defaults_to_interval.
